@@ -20,7 +20,30 @@ def main(argv):
     mod = importlib.import_module(f"mc.props.{pid.lower()}")
     with fw.scratch_dir(prefix=f"gtv-{pid}-") as scratch:
         if mode == "replay":
-            fails = mod.replay(spec["case"], scratch)
+            case = spec["case"]
+            cs = case.get("call_sequence")
+            want = spec.get("sig")
+            fails = []
+            if cs:
+                # most faithful first, while this process is still fresh: re-run the shard's deterministic call
+                # sequence up to and including the failing call (a failure may depend on earlier calls: caches, leaked state)
+                fw.REPLAY_STOP = cs["index"]
+                fw.CURRENT = None
+                try:
+                    mod.run_shard(cs["spec"], cs["tier"], scratch)
+                except fw.StopShard:
+                    pass
+                finally:
+                    fw.REPLAY_STOP = None
+                cur = fw.CURRENT
+                fails = [f for f in (cur.failures if cur is not None else []) if f["case"].get("call_sequence", {}).get("index") == cs["index"]]
+            if not fails or (want and not any(f["sig"] == want for f in fails)):
+                alone = mod.replay(case, scratch)
+                if alone:
+                    fails = alone + fails
+                elif fails:
+                    for f in fails:
+                        f["what"] += f" [only after the {cs['index'] - 1} earlier calls of its shard in the same process]"
             out = {"failures": fails}
         else:
             res = mod.run_shard(spec, tier, scratch)
